@@ -78,6 +78,37 @@ theorem reload_err_identity {busy : List Nat} {s : PState} {c : Cfg} (h : (reloa
     simp only [h1']
     cases s; rfl
 
+/-- a failed direct `Instance.Restart` — no handler restores anything: the cleanup of the error paths alone — is the
+identity, whatever number of hooks the configuration registered next to the ones that were there -/
+theorem restart_err_identity {busy : List Nat} {s : PState} {c : Cfg} (h : (restart busy s c).2 = .err) :
+    (restart busy s c).1 = s := by
+  unfold restart at h ⊢
+  by_cases h1 : (setup c s.hooks false).1 = true
+  · by_cases h2 : (listenLoop busy (s.sites.map (·.port)) s.fds [] c.ports).1 = true
+    · simp [h1, h2] at h
+    · have h2' : (listenLoop busy (s.sites.map (·.port)) s.fds [] c.ports).1 = false := by simpa using h2
+      have hf := listenLoop_fail_restores busy (s.sites.map (·.port)) s.fds c.ports [] s.fds rfl h2'
+      simp only [h1, h2', hf, setup_ok_hooks h1, Nat.add_sub_cancel]
+      simp [pstate_eta s]
+  · have h1' : (setup c s.hooks false).1 = false := by simpa using h1
+    simp only [h1', setup_fail_hooks h1']
+    cases s; rfl
+
+/-- the SIGUSR1 handler is: purge the registry, `Restart`, put the old registry back if that failed -/
+theorem reload_eq_restart (busy : List Nat) (s : PState) (c : Cfg) :
+    reload busy s c =
+      (if (restart busy { s with hooks := 0 } c).2 = .err
+        then ({ (restart busy { s with hooks := 0 } c).1 with hooks := s.hooks }, .err)
+        else restart busy { s with hooks := 0 } c) := by
+  unfold reload restart
+  by_cases h1 : (setup c 0 false).1 = true
+  · by_cases h2 : (listenLoop busy (s.sites.map (·.port)) s.fds [] c.ports).1 = true
+    · simp [h1, h2]
+    · have h2' : (listenLoop busy (s.sites.map (·.port)) s.fds [] c.ports).1 = false := by simpa using h2
+      simp [h1, h2']
+  · have h1' : (setup c 0 false).1 = false := by simpa using h1
+    simp [h1']
+
 /-- every failed attempt — load, reload, validation — is the identity on the process state -/
 theorem step_err_identity {busy : List Nat} {s : PState} {op : Op} (h : (step busy s op).2 = .err) :
     (step busy s op).1 = s := by
@@ -88,6 +119,12 @@ theorem step_err_identity {busy : List Nat} {s : PState} {op : Op} (h : (step bu
       exact start_err_identity h
     · simp only [step, hr, if_true] at h ⊢
       exact reload_err_identity h
+  | restart c =>
+    cases hr : s.running
+    · simp only [step, hr] at h ⊢
+      exact start_err_identity h
+    · simp only [step, hr, if_true] at h ⊢
+      exact restart_err_identity h
   | validate c =>
     simp only [step] at h ⊢
     by_cases h1 : (setup c s.hooks true).1 = true
@@ -223,6 +260,7 @@ theorem clean_init (busy : List Nat) : Clean busy PState.init :=
 /-- one server per listen address -/
 def WF : Op → Prop
   | .load c => c.ports.Nodup
+  | .restart c => c.ports.Nodup
   | .validate _ => True
   | .stop => True
 
@@ -281,6 +319,36 @@ theorem reload_ok {busy : List Nat} {s : PState} {c : Cfg} (hs : Clean busy s)
   · have h1' : (setup c 0 false).1 = false := by simpa using h1
     simp [h1'] at h
 
+theorem restart_ok {busy : List Nat} {s : PState} {c : Cfg} (hs : Clean busy s)
+    (h : (restart busy s c).2 = .ok) (hw : c.ports.Nodup) :
+    (restart busy s c).1.running = true ∧ (restart busy s c).1.sites = c.sites ∧
+    (restart busy s c).1.hooks = s.hooks + c.hooks ∧ Clean busy (restart busy s c).1 := by
+  unfold restart at h ⊢
+  by_cases h1 : (setup c s.hooks false).1 = true
+  · by_cases h2 : (listenLoop busy (s.sites.map (·.port)) s.fds [] c.ports).1 = true
+    · have e : restart busy s c = (({ s with running := true, sites := c.sites, fds := closeAll (listenLoop busy (s.sites.map (·.port)) s.fds [] c.ports).2 (s.sites.map (·.port)), hooks := (setup c s.hooks false).2 } : PState), Res.ok) := by
+        simp [restart, h1, h2]
+      change (restart busy s c).1.running = true ∧ (restart busy s c).1.sites = c.sites ∧ (restart busy s c).1.hooks = s.hooks + c.hooks ∧ Clean busy (restart busy s c).1
+      rw [e]
+      refine ⟨rfl, rfl, setup_ok_hooks h1, ?_, hw, ?_, fun h => by simp at h, hs.dirs⟩
+      · intro p
+        show closeAll (listenLoop busy (s.sites.map (·.port)) s.fds [] c.ports).2 (s.sites.map (·.port)) p = _
+        rw [closeAll_apply, listenLoop_ok_apply busy _ c.ports [] s.fds h2 p, hs.fds p, nodup_count hw p]
+        have := nodup_count hs.nodup p
+        simp only [ports] at this ⊢
+        rw [this]
+        simp only [Cfg.ports]
+        by_cases hp1 : p ∈ List.map (fun x => x.port) s.sites <;>
+          by_cases hp2 : p ∈ List.map (fun x => x.port) c.sites <;> simp [hp1, hp2]
+      · intro p hp
+        rcases listenLoop_ok_free busy _ c.ports [] s.fds h2 p hp with h3 | h3
+        · exact hs.notBusy p (by simpa [ports] using h3)
+        · exact h3
+    · have h2' : (listenLoop busy (s.sites.map (·.port)) s.fds [] c.ports).1 = false := by simpa using h2
+      simp [h1, h2'] at h
+  · have h1' : (setup c s.hooks false).1 = false := by simpa using h1
+    simp [h1'] at h
+
 theorem res_cases (r : Res) : r = .ok ∨ r = .err := by cases r <;> simp
 
 /-- the invariant is kept by every operation -/
@@ -294,6 +362,12 @@ theorem clean_step {busy : List Nat} {s : PState} (hs : Clean busy s) (op : Op) 
         exact (start_ok hs hrun hr hw).2.2.2
       · simp only [step, hrun, if_true] at hr ⊢
         exact (reload_ok hs hr hw).2.2.2
+    | restart c =>
+      cases hrun : s.running
+      · simp only [step, hrun] at hr ⊢
+        exact (start_ok hs hrun hr hw).2.2.2
+      · simp only [step, hrun, if_true] at hr ⊢
+        exact (restart_ok hs hr hw).2.2.2
     | validate c => exact ⟨hs.fds, hs.nodup, hs.notBusy, hs.idle, hs.dirs⟩
     | stop =>
       refine ⟨?_, by simp [step, ports], by simp [step, ports], fun _ => rfl, hs.dirs⟩
@@ -372,6 +446,62 @@ theorem load_invalid_err {busy : List Nat} {s : PState} {c : Cfg} (hs : Clean bu
       · simp [step, hrun, reload, setup_fails hf] at hr
   · exact hr
 
+/-- the same two facts for the API-level reload -/
+theorem restart_valid_ok {busy : List Nat} {s : PState} {c : Cfg} (hs : Clean busy s) (hw : c.ports.Nodup)
+    (hv : validFor busy c = true) : (step busy s (.restart c)).2 = .ok := by
+  simp only [validFor, Bool.and_eq_true, beq_iff_eq, List.all_eq_true, Bool.not_eq_true'] at hv
+  cases hrun : s.running
+  · have hl : (listenLoop busy [] s.fds [] c.ports).1 = true := by
+      apply listenLoop_succeeds _ _ _ _ _ hw
+      intro p hp
+      right
+      refine ⟨hv.2 p hp, ?_⟩
+      rw [hs.fds p, hs.idle hrun]; simp [ports]
+    simp [step, hrun, start, setup_none hv.1, hl]
+  · have hl : (listenLoop busy (s.sites.map (·.port)) s.fds [] c.ports).1 = true := by
+      apply listenLoop_succeeds _ _ _ _ _ hw
+      intro p hp
+      by_cases hin : p ∈ s.sites.map (·.port)
+      · left; simpa using hin
+      · right
+        refine ⟨hv.2 p hp, ?_⟩
+        rw [hs.fds p]; simp only [ports]; simp [hin]
+    simp [step, hrun, restart, setup_none hv.1, hl]
+
+theorem restart_invalid_err {busy : List Nat} {s : PState} {c : Cfg} (hs : Clean busy s)
+    (hv : validFor busy c = false) : (step busy s (.restart c)).2 = .err := by
+  rcases res_cases (step busy s (.restart c)).2 with hr | hr
+  · exfalso
+    by_cases hf : c.fail = .none
+    · have hb : ∃ p ∈ c.ports, busy.contains p = true := by
+        simp only [validFor, hf, beq_self_eq_true, Bool.true_and] at hv
+        rw [List.all_eq_false] at hv
+        obtain ⟨p, hp, hpb⟩ := hv
+        exact ⟨p, hp, by simpa using hpb⟩
+      obtain ⟨p, hp, hpb⟩ := hb
+      cases hrun : s.running
+      · simp only [step, hrun] at hr
+        unfold start at hr
+        by_cases h2 : (listenLoop busy [] s.fds [] c.ports).1 = true
+        · rcases listenLoop_ok_free busy [] c.ports [] s.fds h2 p hp with h3 | h3
+          · simp at h3
+          · rw [h3] at hpb; exact Bool.noConfusion hpb
+        · have h2' : (listenLoop busy [] s.fds [] c.ports).1 = false := by simpa using h2
+          simp [setup_none hf, h2'] at hr
+      · simp only [step, hrun, if_true] at hr
+        unfold restart at hr
+        by_cases h2 : (listenLoop busy (s.sites.map (·.port)) s.fds [] c.ports).1 = true
+        · rcases listenLoop_ok_free busy _ c.ports [] s.fds h2 p hp with h3 | h3
+          · have := hs.notBusy p (by simpa [ports] using h3)
+            rw [this] at hpb; exact Bool.noConfusion hpb
+          · rw [h3] at hpb; exact Bool.noConfusion hpb
+        · have h2' : (listenLoop busy (s.sites.map (·.port)) s.fds [] c.ports).1 = false := by simpa using h2
+          simp [setup_none hf, h2'] at hr
+    · cases hrun : s.running
+      · simp [step, hrun, start, setup_fails hf] at hr
+      · simp [step, hrun, restart, setup_fails hf] at hr
+  · exact hr
+
 theorem probe_clean {busy : List Nat} {s : PState} (hs : Clean busy s) (p : Nat) :
     probe s p = match s.sites.find? (·.port == p) with | some site => site.marker | none => "-" := by
   unfold probe
@@ -423,6 +553,22 @@ theorem stepLaw_step {busy : List Nat} {s : PState} (hs : Clean busy s) (op : Op
       simp [stepLaw, hdv, hv, hok, h1, h2, h3, h4]
     · have hv' : validFor busy c = false := by simpa using hv
       have herr := load_invalid_err hs hv'
+      have hid := step_err_identity herr
+      rw [hid] at hdv
+      simp [stepLaw, hdv, hv', herr, hid]
+  | restart c =>
+    by_cases hv : validFor busy c = true
+    · have hok := restart_valid_ok hs hw hv
+      have hsites : (step busy s (.restart c)).1.sites = c.sites := by
+        cases hrun : s.running
+        · simp only [step, hrun] at hok ⊢
+          exact (start_ok hs hrun hok hw).2.1
+        · simp only [step, hrun, if_true] at hok ⊢
+          exact (restart_ok hs hok hw).2.1
+      obtain ⟨h1, h2, h3, h4⟩ := observe_loaded hc' hsites
+      simp [stepLaw, hdv, hv, hok, h1, h2, h3, h4]
+    · have hv' : validFor busy c = false := by simpa using hv
+      have herr := restart_invalid_err hs hv'
       have hid := step_err_identity herr
       rw [hid] at hdv
       simp [stepLaw, hdv, hv', herr, hid]
